@@ -65,7 +65,7 @@ def gen_err(rng, case):
         style = str(rng.choice(["none", "warmup", "posterior", "single", "dense", "sparse"]))
         cells = []
         if style == "single":
-            cells.append([int(rng.integers(C)), int(rng.integers(1, T)), int(rng.integers(1, 4))])
+            cells.append([int(rng.integers(C)), int(rng.integers(1, T)), int(rng.choice([1, 2, 3, -1]))])
         elif style != "none":
             dens = 0.5 if style == "dense" else 0.15
             for c in range(C):
@@ -75,7 +75,7 @@ def gen_err(rng, case):
                     if style == "posterior" and (first_post is None or t < first_post):
                         continue
                     if rng.random() < dens:
-                        cells.append([c, t, int(rng.integers(1, 4))])
+                        cells.append([c, t, int(rng.choice([1, 2, 3, -1]))])
         out.append({"style": style, "cells": cells})
     return out
 
@@ -260,6 +260,20 @@ def build_engine(case, epochs, *, states=None, kernels=None, position_keys=None,
     return eng, kernels, states
 
 
+def peek(eng, case):
+    """The user looks at the results while the run is still going on (every accessor a summary would use). Whatever is
+    read here must not freeze what later reads return."""
+    if case["idx"] % 2:
+        return
+    r = eng.get_results()
+    for f in (lambda: r.get_posterior_samples(), lambda: r.get_samples(), lambda: r.get_posterior_transition_infos(),
+              lambda: r.get_error_log(), lambda: r.get_error_log(posterior_only=True), lambda: r.get_tuning_times()):
+        try:
+            f()
+        except Exception:  # noqa: BLE001  (e.g. "no posterior samples" so far)
+            pass
+
+
 def drive(case, **kw):
     """Build and run according to case['mode']. Returns (engine, kernels, states)."""
     eps = mk_epochs(case["spec"], share=bool(case.get("share_configs")))
@@ -270,6 +284,7 @@ def drive(case, **kw):
         eng, kernels, states = build_engine(case, eps, **kw)
         while not eng.is_sampling_done():
             eng.sample_next_epoch()
+            peek(eng, case)
         return eng, kernels, states
     if mode == "all":
         eng, kernels, states = build_engine(case, eps, **kw)
@@ -282,10 +297,12 @@ def drive(case, **kw):
                 try_bad_append(eng, j, case["chunk"])
             eng.append_epoch(e)
             eng.sample_next_epoch()
+            peek(eng, case)
     else:  # mixed
         s = 1 + case.get("split", 1)
         eng, kernels, states = build_engine(case, eps[:s], **kw)
         eng.sample_all_epochs()
+        peek(eng, case)
         rest = eps[s:]
         i = 0
         while i < len(rest):
@@ -295,6 +312,7 @@ def drive(case, **kw):
                     try_bad_append(eng, i, case["chunk"])
                 eng.append_epoch(e)
             eng.sample_all_epochs()
+            peek(eng, case)
             i += n
     return eng, kernels, states
 
